@@ -163,6 +163,12 @@ pub fn faults(
     });
     let other_cid = Scalar::random(&mut *rng);
     push("evil/other-channel-id", evil_reply(rng, m, &tweak(&w.msg, 0, other_cid), &w.bf));
+    // the channel id with only one of its two top bits changed (as scalars: +-2^255, +-2^254)
+    for (nm, limb) in [("2^255", 1u64 << 63), ("2^254", 1u64 << 62)] {
+        let d = Scalar::from_raw([0, 0, 0, limb]);
+        push(&format!("evil/channel-id+{}", nm), evil_reply(rng, m, &tweak(&w.msg, 0, d), &w.bf));
+        push(&format!("evil/channel-id-{}", nm), evil_reply(rng, m, &tweak(&w.msg, 0, -d), &w.bf));
+    }
     push("evil/other-lock", evil_reply(rng, m, &tweak(&w.msg, 2, one), &w.bf));
     push("evil/second-slot+1", evil_reply(rng, m, &tweak(&w.msg, 1, one), &w.bf));
     // wrong type: the other kind of message for the same state
@@ -580,6 +586,90 @@ fn identity_through_api(c: &mut Ctx, m: &'static Merchant) {
     });
 }
 
+/// Two customers of one merchant, side by side. At each of the four reply points customer A's honest
+/// reply is first delivered to customer B (who must refuse it and stay as it was) and only then to A
+/// (who must accept it): what one customer refused cannot matter to another.
+fn foreign_reply_first(c: &mut Ctx, m: &'static Merchant) {
+    for k in 0..c.tier.pick(2usize, 12) {
+        let name = format!("foreign-reply-first/{}", k);
+        c.case(&name, |c| {
+            let mut rng = c.rng(&name);
+            let ctx = b"c03-two".to_vec();
+            let mut open = |rng: &mut rand_chacha::ChaCha20Rng, cust: u64, merch: u64| -> Result<(Sess, Vec<u8>), String> {
+                let cid = new_channel_id(m, rng, b"m", b"c");
+                Sess::request(m, rng, cid, cust, merch, &ctx)
+            };
+            let ((mut a, pa), (mut b, pb)) = match (open(&mut rng, 40, 7), open(&mut rng, 40, 7)) {
+                (Ok(x), Ok(y)) => (x, y),
+                _ => return c.inconclusive("C03: request failed"),
+            };
+            macro_rules! step {
+                ($stage:expr, $foreign:expr, $own:expr) => {{
+                    c.eval();
+                    c.distinct(&format!("foreign-reply-first/{}/{}", $stage, k));
+                    let before = b.stage.bytes();
+                    match $foreign {
+                        Ok(false) => {
+                            if b.stage.bytes() != before {
+                                c.violation(&format!("C03 refusal-changed-state stage={} fault=other-customers-honest-reply", $stage), json!({}));
+                            }
+                        }
+                        Ok(true) => {
+                            c.violation(&format!("C03 invalid-reply-accepted stage={} fault=other-customers-honest-reply", $stage), json!({}));
+                            return;
+                        }
+                        Err(e) => return c.inconclusive(&e),
+                    }
+                    match $own {
+                        Ok(true) => c.count(&format!("own_reply_accepted_after_foreign_refusal[{}]", $stage), 1),
+                        Ok(false) => {
+                            c.violation(&format!("C03 honest-reply-refused stage={} after=another-customer-refused-the-same-reply", $stage), json!({}));
+                            return;
+                        }
+                        Err(e) => return c.inconclusive(&e),
+                    }
+                }};
+            }
+            // closing signatures
+            let (Ok(Some(sa)), Ok(Some(sb))) = (a.m_initialize(&mut rng, 40, 7, &pa, &ctx), b.m_initialize(&mut rng, 40, 7, &pb, &ctx)) else {
+                return c.inconclusive("C03: honest establish refused");
+            };
+            step!("requested", b.c_complete(&sa), a.c_complete(&sa));
+            if b.c_complete(&sb) != Ok(true) {
+                return c.violation("C03 honest-reply-refused stage=requested after=refusing-another-customers-reply", json!({}));
+            }
+            // pay tokens
+            let (Ok(ta), Ok(tb)) = (a.m_activate(&mut rng), b.m_activate(&mut rng)) else { return c.inconclusive("C03: activate") };
+            step!("inactive", b.c_activate(&ta), a.c_activate(&ta));
+            if b.c_activate(&tb) != Ok(true) {
+                return c.violation("C03 honest-reply-refused stage=inactive after=refusing-another-customers-reply", json!({}));
+            }
+            // one payment each
+            let amt = amount(3).unwrap();
+            let (Ok(Ok((na, qa))), Ok(Ok((nb, qb)))) = (a.c_start(&mut rng, amt, &ctx), b.c_start(&mut rng, amt, &ctx)) else { return c.inconclusive("C03: start") };
+            let (Ok(Some(la)), Ok(Some(lb))) = (a.m_allow(&mut rng, amt, &na, &qa, &ctx), b.m_allow(&mut rng, amt, &nb, &qb, &ctx)) else {
+                return c.inconclusive("C03: honest payment refused");
+            };
+            step!("started", b.c_lock(&la).map(|o| o.is_some()), a.c_lock(&la).map(|o| o.is_some()));
+            // B locks with its own signature; both complete at the merchant
+            let lock_b = b.c_lock(&lb);
+            let Ok(Some((pair_b, bf_b))) = lock_b else {
+                return c.violation("C03 honest-reply-refused stage=started after=refusing-another-customers-reply", json!({}));
+            };
+            let pair_a = a.log.iter().rev().find(|r| r.kind == "revocation_pair").map(|r| r.bytes.clone());
+            let bf_a = a.log.iter().rev().find(|r| r.kind == "revocation_blinding_factor").map(|r| r.bytes.clone());
+            let (Some(pair_a), Some(bf_a)) = (pair_a, bf_a) else { return c.inconclusive("C03: lock message not logged") };
+            let (Ok(Some(ka)), Ok(Some(kb))) = (a.m_complete(&mut rng, &pair_a, &bf_a), b.m_complete(&mut rng, &pair_b, &bf_b)) else {
+                return c.inconclusive("C03: honest revocation refused");
+            };
+            step!("locked", b.c_unlock(&ka), a.c_unlock(&ka));
+            if b.c_unlock(&kb) != Ok(true) {
+                return c.violation("C03 honest-reply-refused stage=locked after=refusing-another-customers-reply", json!({}));
+            }
+        });
+    }
+}
+
 pub fn run(c: &mut Ctx) {
     c.note("rule", json!("histories of payments (either sign, zero, boundary amounts) with 0-3 (quick) faults from the alphabet {random pair, honest reply re-blinded / shifted / swapped, evil-merchant signatures on states with altered balances, channel id, lock or second slot, the other message type for the same state, second merchant key, right signature under a wrong blinding factor, replies recorded in other sessions / earlier payments, all-identity} injected before the honest reply at each of the four replies; after every call a closing message from a copy of the state is checked against the merchant's close check, the ledger and the set of disclosed locks. Distinct = distinct (stage, fault kind) injections and distinct (stage, observation point, ledger state) closes."));
     let m = match fixtures::merchant(c.seed, "m0") {
@@ -591,6 +681,7 @@ pub fn run(c: &mut Ctx) {
         Err(e) => return c.inconclusive(&e),
     };
     identity_through_api(c, m);
+    foreign_reply_first(c, m);
     let nh = c.tier.pick(48usize, 400);
     let payments = c.tier.pick(3usize, 10);
     let nfaults = c.tier.pick(3usize, 18);
